@@ -31,6 +31,8 @@ FORMULA_SITES = [  # (module, function, renaming to the canonical names crys / i
 
 def run(model, rep, tier):
     rep.explanation = __doc__.strip()
+    from ._common import caches_for
+    caches_for(model, rep, 'C21')
     rep.not_decided = 'that every jump below the cutoff is found and that exactly the obstructed ones are removed (geometry)'
     rep.rule('reversal-pairing', 'X.append((pair, dx)) is accompanied by X.append((reversed pair, -dx))')
     rep.rule('lattice-vector-formula', 'the four computations of the lattice vector of a jump are one linear form')
